@@ -833,7 +833,13 @@ func (s *TxStore) Rollback(tx mwdb.DBTransaction, height uint64) error {
 				continue
 			}
 
-			err = putRawUnmined(nsUnmined, txHash[:], recVal)
+			// back to the unmined set, in the unmined encoding (received time + tx)
+			rec.Received = rbBlock.Timestamp
+			unminedVal, err := valueUnmined(&rec)
+			if err != nil {
+				return err
+			}
+			err = putRawUnmined(nsUnmined, txHash[:], unminedVal)
 			if err != nil {
 				return err
 			}
